@@ -45,3 +45,68 @@ META = {
         "technique": "Lean 4 refinement proof (bitmap -> set of pages) + exhaustive small-universe differential run",
     },
 }
+
+META.update({
+    "C02": {
+        "text": "For every well-formed layout (any number of regions, any sizes, adjacent or with holes, up to the top of the address space) find_region, to_region_addr, address_in_range, "
+                "check_address, checked_offset, last_addr, get_host_address, get_slice and check_range are proved equal to the set-theoretic reading (31 theorems; check_range by induction over the try_access loop). "
+                "Tied to guest_memory.rs / mmap/mod.rs by an exhaustive small universe (every address 0..25 x every length 0..26 x random small layouts incl. 1-byte regions and holes) and large layouts probed at boundaries, "
+                "on GuestMemoryMmap AND a linear-scan implementation that relies on every provided default; interval-set oracle.",
+        "design_ref": "DESIGN.md 6/C02", "note": PROOF_NOTE + "binary_search_by_key is a model parameter with its documented contract.",
+        "technique": "Lean 4 proof over sorted-disjoint layouts + exhaustive small-universe differential run on two GuestMemory implementations",
+    },
+    "C04": {
+        "text": "Every data-moving operation of a volatile container (buffer/object/atomic/ref/array/element-wise/slice-to-slice) is proved to store or return exactly the addressed window "
+                "(bytes' = splice bytes w d), report the cut-off count, leave all other bytes unchanged, error exactly when it starts at/past the end, and all routes read back what any route stored; histories by induction (102 theorems). "
+                "Tied to volatile_memory.rs by op histories over containers 0..300 bytes, all skews, 18 element types, lengths around the 8-byte threshold, overlapping copies; Vec<u8> mirror oracle + canaries.",
+        "design_ref": "DESIGN.md 6/C04", "note": PROOF_NOTE + "memmove/volatile intrinsics move the bytes they name (trusted).",
+        "technique": "Lean 4 frame/effect theorems for every accessor + differential histories against a byte mirror",
+    },
+    "C05": {
+        "text": "Soundness of dirty tracking: for every mutating op through an accessor derived by ANY chain (Tracks invariant proved preserved by every derivation), every changed byte lies on a page that is dirty afterwards, "
+                "for every page size and interleaved resets (ghost-snapshot invariant over histories); failing descriptor reads mark their whole target (44 theorems). "
+                "Tied by slice-world and guest-memory histories with page sizes 1..>size, four bitmap flavours, random data, resets; diff-driven oracle on every region's bitmap.",
+        "design_ref": "DESIGN.md 6/C05", "note": PROOF_NOTE + "Raw-pointer/reference writes are exempt by the statement.",
+        "technique": "Lean 4 invariant (bitmap offset tracks address) + per-op effect lemmas + differential run with diff-driven oracle",
+    },
+    "C16": {
+        "text": "Precision: a write of n>0 bytes marks exactly the pages overlapping the written window (newly_dirty_iff, page_end_exact), reads/rejected requests mark nothing, PartialBuffer marks exactly the stored prefix (25 theorems). "
+                "Same differential runs as C05 with the oracle comparing the full bitmap both ways after every op.",
+        "design_ref": "DESIGN.md 6/C16", "note": PROOF_NOTE,
+        "technique": "Lean 4 exact-mark equations + differential run comparing whole bitmaps",
+    },
+    "C10": {
+        "text": "from_arc_regions / insert_region / remove_region are proved to succeed exactly for sorted-disjoint inputs with the documented error otherwise, to return a well-formed map that is a permutation of old +/- the region, "
+                "and to keep every other region; histories by induction; regions past 2^64 refused (30 theorems). Tied by insert/remove histories (1-byte overlap, duplicate start, adjacency, wrong size, top of address space) "
+                "with every earlier map kept alive and re-observed after each step.",
+        "design_ref": "DESIGN.md 6/C10", "note": PROOF_NOTE + "Persistence of the old map is definitional in the model; in Rust it rests on &self + Vec<Arc<_>> (trusted, exercised).",
+        "technique": "Lean 4 proofs (Perm / well-formedness) + differential edit histories re-observing all live maps",
+    },
+    "C13": {
+        "text": "Each adapter (&[u8], &mut [u8], Vec<u8>, Cursor read/write) composed with the container semantics is proved equal to a transcription of its std::io counterpart for all contents, positions and buffer lengths, "
+                "sequences of calls by induction, exact variants ok iff std's, never beyond the buffer (25 theorems). Tied by three-way runs: the crate on real adapters and descriptors, the model, and a byte oracle.",
+        "design_ref": "DESIGN.md 6/C13", "note": PROOF_NOTE + "The std side of the theorems is my transcription of the std documentation; descriptors are the kernel's.",
+        "technique": "Lean 4 equivalence with a std model + differential run over every adapter",
+    },
+    "C14": {
+        "text": "For ALL fault scripts of any length: EINTR is never reported and is equivalent to deleting the interrupted calls, bytes consumed are exactly the bytes stored at consecutive addresses (splice equation), "
+                "exact forms ok iff the full count moved, errors end the transfer and are reported, frame outside the prefix, loop fuel never runs out (27 theorems). Tied by scripted streams (full/short/zero/EINTR/fail) "
+                "at slice, region and guest-memory level incl. ranges spanning regions and ending in holes; consumed/delivered-bytes oracle.",
+        "design_ref": "DESIGN.md 6/C14", "note": PROOF_NOTE + "Guest-memory-level forms are tied by the run and by C03's loop theorems; the Lean theorems here are at slice level.",
+        "technique": "Lean 4 induction over fault scripts + scripted-stream differential run",
+    },
+    "C17": {
+        "category": "proof",
+        "text": "PARTIAL. Guard length = bytes covered and guard pointer = first byte for slices, refs and arrays (full strength after the fix: commit for the array guard); for on-demand Xen mappings the requested window is proved to cover "
+                "every byte of the guard for all page sizes/offsets/lengths and every access sequence leaves no mapping (10 theorems). The correspondence run observes ptr_guard()/ptr_guard_mut() of every accessor kind and "
+                "element type in the standard build; the Xen build is not exercised in this session.",
+        "design_ref": "DESIGN.md 6/C17", "note": PROOF_NOTE + "Xen half: model only (no hook H3 / no xen-feature harness run).",
+        "technique": "Lean 4 window arithmetic + differential run on guard extents (standard build)",
+    },
+    "C18": {
+        "text": "Zero-length buffer/slice/object accesses are proved to be successful no-ops at EVERY offset of a container, zero-sized element copies and refs/arrays too, nothing marked (32 theorems; guest-memory layer in C18g once merged). "
+                "Tied by slice- and guest-memory-level runs over mapped, hole, 0 and u64::MAX addresses, empty containers and the three zero-sized element types, in checked and unchecked builds.",
+        "design_ref": "DESIGN.md 6/C18", "note": PROOF_NOTE + "Three defects found here were repaired by fix: commits (see known_findings.json).",
+        "technique": "Lean 4 no-op theorems + differential run with a zero-length oracle at all three layers",
+    },
+})
